@@ -618,6 +618,9 @@ class GPT:
         tmplist = []
         for part in self.parts:
             tmplist.append(part.record())
+        # Add all of the "empty" partitions; the CRC in the header covers the
+        # whole partition array, not just the entries that are in use.
+        tmplist.append(b'\x00' * (self.header.num_parts - len(self.parts)) * 128)
         part_data = b''.join(tmplist)
 
         if self.is_primary:
@@ -629,12 +632,8 @@ class GPT:
                 pad = b'\x00' * (2048 - len(raw))
                 outlist.extend([raw, pad])
             outlist.append(part_data)
-            # Write out all of the "empty" partitions.
-            outlist.append(b'\x00' * (self.header.num_parts - len(self.parts)) * 128)
         else:
             outlist = [part_data]
-            # Write out all of the "empty" partitions.
-            outlist.append(b'\x00' * (self.header.num_parts - len(self.parts)) * 128)
             outlist.append(self.header.record(crc32(part_data)))
 
         return b''.join(outlist)
